@@ -1,7 +1,7 @@
 (* C01 — formatting preserves every non-blank character, in order.  Statements only. *)
 From Coq Require Import String.
-From PasfmtVerif Require Import Model.Pipeline Model.Reconstruct Proofs.ReconstructProofs
-  Proofs.RewritersProofs Proofs.PipelineProofs.
+From PasfmtVerif Require Import Model.Lexer Model.Pipeline Model.Reconstruct Proofs.ReconstructProofs
+  Proofs.RewritersProofs Proofs.PipelineProofs Proofs.EndToEnd.
 
 (* Reconstruction emits each token's content exactly once, in order, and nothing else that is not
    blank — for ALL counters, ignore marks and settings. *)
@@ -43,3 +43,13 @@ Proof. exact format_line_comment_strip. Qed.
 Theorem C01_directive_case_only :
   forall c c', format_compiler_directive c = Some c' -> fold_case c' = fold_case c /\ length c' = length c.
 Proof. exact format_compiler_directive_fold. Qed.
+
+(* The whole statement: for EVERY valid UTF-8 input, every typing / marking / initial counters the
+   parser side may produce, every chain of admissible formatting steps and all settings, the output
+   has the same non-blank characters as the input, up to ASCII case. *)
+Theorem C01_end_to_end :
+  forall s, valid_utf8 s = true ->
+  exists toks, lex s = Some toks /\
+  forall l ks l' rs, carries (segments toks s) l -> chain ks l l' -> rs_wf rs ->
+  fold_case (strip (reconstruct rs l')) = fold_case (strip s).
+Proof. exact format_preserves_nonblank_total. Qed.
